@@ -2,6 +2,7 @@ import EudoxiaModel.Model.Exec
 import EudoxiaModel.Model.Dag
 import EudoxiaModel.Model.Profile
 import EudoxiaModel.Model.Trace
+import EudoxiaModel.Model.Gen
 import Driver.Json
 /-! Line-protocol driver: one command per input line, one JSON observation per output line. -/
 open Eudoxia
@@ -127,6 +128,17 @@ def step (d : DS) (line : String) : DS × String :=
     (d, "{\"ok\":true,\"num\":" ++ jarr ((parseFracs fr).map (fun x => toString (Trace.snapNum x.1 x.2 tps.toNat!))) ++ "}")
   | ["jitter", arr, draws] =>
     (d, "{\"ok\":true,\"order\":" ++ jarr ((Trace.jitter (parseList arr) (parseList draws)).map (fun x => jarr [toString x.1, toString x.2])) ++ "}")
+  | ["gen", np, wm, nticks, draws] =>
+    let ds : List Gen.Draw := if draws == "-" then [] else (draws.splitOn ",").map (fun t =>
+      if t.startsWith "c" then Gen.Draw.choice (t.drop 1).toString.toNat!
+      else match (t.drop 1).toString.splitOn "/" with
+        | [a, b] => Gen.Draw.normal ⟨(if a.startsWith "-" then - ((a.drop 1).toString.toNat! : Int) else (a.toNat! : Int)), b.toNat!⟩
+        | _ => Gen.Draw.choice 0)
+    (match Gen.run { numPipelines := np.toNat!, waitMean := wm.toNat! } nticks.toNat! {} ds with
+     | none => (d, "{\"ok\":true,\"fits\":false}")
+     | some (out, rest) =>
+       (d, "{\"ok\":true,\"fits\":true,\"left\":" ++ toString rest.length ++ ",\"out\":" ++
+         jarr (out.map (fun ps => jarr (ps.map (fun p => jarr [toString p.id, toString p.prio, jarr (p.protos.map toString)])))) ++ "}"))
   | ["reset"] => ({}, "{\"ok\":true}")
   | "check" :: which :: rest =>
     let text := " ".intercalate rest
